@@ -687,6 +687,12 @@ var escapedPathSep = func() []byte {
 	return bytes.Trim(s, "\"")
 }()
 
+// The path separator written as a \u escape, which is just as valid in json.
+var unicodePathSep = [2][]byte{
+	[]byte(fmt.Sprintf("\\u%04x", os.PathSeparator)),
+	[]byte(fmt.Sprintf("\\u%04X", os.PathSeparator)),
+}
+
 // Get strings appearing in data as deserialized from json, e.g. recursively
 // searching map[string]interface{}, []interface{} and string.  Ignores bool
 // and json.Number/float64.  Ignores strings which do not contain a path
@@ -727,7 +733,9 @@ func getMaybeFileNames(value json.Marshaler) []string {
 		if len(value) == 0 || bytes.Equal(value, nullBytes) {
 			return nil
 		}
-		if !bytes.Contains(value, escapedPathSep) {
+		if !bytes.Contains(value, escapedPathSep) &&
+			!bytes.Contains(value, unicodePathSep[0]) &&
+			!bytes.Contains(value, unicodePathSep[1]) {
 			return nil
 		}
 		if value[0] == '[' {
